@@ -25,6 +25,7 @@ func init() {
 		Families: []core.Family{
 			{Name: "mixed-styles", N: core.TierN(800, 40000), Batch: 25, Run: c09Mixed},
 			{Name: "independence", N: core.TierN(120, 4800), Batch: 20, Run: c09Independence},
+			{Name: "ratelimit-cancel", N: core.TierN(60, 2400), Batch: 20, Run: c09RateLimitCancel},
 		},
 	})
 	core.Register(&core.Property{
@@ -196,7 +197,7 @@ func c10Mixed(c *core.Ctx) {
 // c10Gaps: calls are aimed at the CallAfter wait and at the resolve-to-return gap of a work function that resolves
 // early and lingers: later calls of every style arrive in that gap.
 func c10Gaps(c *core.Ctx) {
-	r := &exRun{c: c, e: new(bigbuff.Exclusive), keys: 1, active: make([]atomic.Int32, 1), rlCtx: context.Background()}
+	r := &exRun{c: c, e: new(bigbuff.Exclusive), keys: 1, active: make([]atomic.Int32, 1), inner: make([]atomic.Int32, 1), workStart: make([]atomic.Int64, 1), rlCtx: context.Background()}
 	p := c.RandomPerturb(exclSites)
 	defer p.Stop()
 	var wg sync.WaitGroup
@@ -263,4 +264,60 @@ func c10Gaps(c *core.Ctx) {
 	if c.Index < 1 {
 		c.SetHistory(r.summary())
 	}
+}
+
+// c09RateLimitCancel: the context of an ExclusiveRateLimit wrapper is cancelled while its (slow) work is in flight and
+// a call that is not gated by that context follows on the same key: the user's work functions must still not overlap.
+func c09RateLimitCancel(c *core.Ctx) {
+	e := new(bigbuff.Exclusive)
+	p := c.RandomPerturb(exclSites)
+	defer p.Stop()
+	var active, overlaps atomic.Int32
+	work := func(d time.Duration) func() (interface{}, error) {
+		return func() (interface{}, error) {
+			if active.Add(1) > 1 {
+				overlaps.Add(1)
+			}
+			time.Sleep(d)
+			active.Add(-1)
+			return 1, nil
+		}
+	}
+	ctx, cancel := context.WithCancel(context.Background())
+	defer cancel()
+	slow := time.Duration(300+c.Rng.IntN(700)) * time.Microsecond
+	first := e.CallWithOptions(bigbuff.ExclusiveKey("k"), bigbuff.ExclusiveValue(work(slow)), bigbuff.ExclusiveRateLimit(ctx, time.Duration(100+c.Rng.IntN(2000))*time.Microsecond))
+	time.Sleep(time.Duration(50+c.Rng.IntN(200)) * time.Microsecond) // the work is in flight
+	cancel()
+	n := 1 + c.Rng.IntN(3)
+	var wg sync.WaitGroup
+	for i := 0; i < n; i++ {
+		style := c.Rng.IntN(3)
+		wg.Add(1)
+		go func() {
+			defer wg.Done()
+			switch style {
+			case 0:
+				e.Call("k", work(100*time.Microsecond))
+			case 1:
+				<-e.CallWithOptions(bigbuff.ExclusiveKey("k"), bigbuff.ExclusiveValue(work(100*time.Microsecond)), bigbuff.ExclusiveRateLimit(context.Background(), 50*time.Microsecond))
+			default:
+				<-e.CallAsync("k", work(100*time.Microsecond))
+			}
+		}()
+	}
+	ok := core.AwaitDone(core.Go(wg.Wait), 10000)
+	_, _, got := core.AwaitChan(first, 10000)
+	if !ok || !got {
+		c.Violate("call-blocked", "calls did not complete after the rate limiter's context was cancelled mid-work")
+		c.SetDump(core.DumpAll())
+		return
+	}
+	core.WaitUntil(5000, func() bool { return active.Load() == 0 })
+	if overlaps.Load() > 0 {
+		c.Violate("overlap", "the rate limiter's context was cancelled while its work was running and %d later work function(s) of the same key started before it had returned", overlaps.Load())
+	}
+	c.Op("call", n+1)
+	c.Nontrivial()
+	c.Sig("rlcancel", n)
 }
